@@ -63,9 +63,11 @@ class BoundTracker(Tracker):
         s = spell(e)
         best = None
         if s is not None:
-            for (t, k) in st:
-                if t == s and (best is None or k > best):
-                    best = k
+            for fact in st:
+                if len(fact) == 2:
+                    t, k = fact
+                    if t == s and (best is None or k > best):
+                        best = k
         if e.k == "MemberExpr" and e.member in self.field_inv:
             inv = self.field_inv[e.member]
             if inv is not None and (best is None or inv > best):
@@ -167,8 +169,19 @@ class BoundTracker(Tracker):
                     cur = self._lb(st, a)
                     if cur is not None and cur >= 0:
                         lb = 1
+                extra = set()
+                if op == "<=":
+                    extra.add((s, "le", k))
+                elif op == "<":
+                    extra.add((s, "le", k - 1))
+                elif op == "==":
+                    extra.add((s, "le", k))
+                elif op == "!=":
+                    extra.add((s, "ne", k))
                 if lb is not None:
-                    return st | {(s, lb)}
+                    return st | {(s, lb)} | extra
+                if extra:
+                    return st | extra
             else:
                 # E > F / E >= F with a known bound of F
                 s = spell(a)
